@@ -95,6 +95,7 @@ def generate(seed, run, tier):
         for m_ in rk.sample(['train', 'eval'], 2):
             tail += [{'op': 'set_mode', 'mode': m_}, {'op': 'forward_only', 'no_grad': True}]
         ops[i:i] = tail
+    ops = sched.add_bystanders(cfg, ops, Stream(seed, ID, run, 'bystanders'), p=0.12)
     return {'cfg': cfg, 'ops': ops, 'run_seed': mix(seed, ID, run, 'run')}
 
 
